@@ -191,7 +191,60 @@ def search(ctx, seeds):
             r2 = c.get("raw2") or b""
             diff = next((i for i, (a, b) in enumerate(zip(r2, c["raw"])) if a != b), min(len(r2), len(c["raw"])))
             add("write after read is not idempotent", d, f"first differing byte {diff}; lengths {len(c['raw'])} then {len(r2)}")
+    for las, budget, size, raised, same in failing_write_cases(ctx):
+        ctx.case(("failing-write", budget, size), nontrivial=True)
+        ctx.count("failing-write")
+        if not same:
+            add("a failed write left the caller's record modified", {"version": str(las.header.version), "format": las.header.point_format.id, "points": len(las.points),
+                                                                     "fails_after_bytes": budget, "file_size": size},
+                "the destination raised OSError during the write; the scale-aware record (rescaled in place for the write) was not restored")
     return failing[:8]
+
+
+class FailingStream(io.BytesIO):
+    """accepts `budget` bytes, then raises on write (a full disk / closed pipe)"""
+
+    def __init__(self, budget):
+        super().__init__()
+        self.budget = budget
+
+    def write(self, b):
+        if self.tell() + len(b) > self.budget:
+            raise OSError("no space left on device (harness)")
+        return super().write(b)
+
+
+def failing_write_cases(ctx):
+    """a write that fails half-way must still hand the caller's (rescaled in place) record back untouched"""
+    import laspy
+    out = []
+    for _ in range(ctx.n(40, 400)):
+        rng = ctx.rng
+        las, _ = make_case(rng)
+        tries = 0
+        while not getattr(las, "_verif_rescale", False) and tries < 50:
+            las, _ = make_case(rng)
+            tries += 1
+        if not getattr(las, "_verif_rescale", False):
+            continue
+        full = io.BytesIO()
+        try:
+            las.write(full)
+        except Exception:
+            continue
+        size = len(full.getvalue())
+        off = int.from_bytes(full.getvalue()[96:100], "little")
+        budget = rng.choice([off, off + 1, max(off, size - 1), rng.randrange(off, size)])
+        snap = sessions.snapshot(las)
+        try:
+            las.write(FailingStream(budget))
+            raised = False
+        except OSError:
+            raised = True
+        except Exception as ex:
+            raised = True
+        out.append((las, budget, size, raised, sessions.snapshot(las) == snap))
+    return out
 
 
 def replay(ctx, data):
